@@ -1,13 +1,13 @@
 (* C17 — open blk files stay bounded by the files overlapping the current height. Pinned statements only: each theorem is closed by `exact` of a lemma proved in theories/. *)
-From RBP Require Import Bytes Hashes Wire Block BlockP Render Index IndexP Model ModelP StoreP CsvP.
+From RBP Require Import Bytes Hashes Wire Block Index Model ModelP.
 From RBP Require Drive Merkle Utxo Stats OutProto Reader Published Misc.
 
 Theorem C17_open_invariant :
-  forall file_of maxh : N -> N, (forall h : N, h <= maxh (file_of h)) -> (forall h : N, file_of (maxh (file_of h)) = file_of h) -> forall (n : nat) (s : N) (o : Drive.openset), Drive.inv file_of maxh o s -> Drive.inv file_of maxh (Drive.visits file_of maxh o s n) (s + N.of_nat n).
+  forall (file_of maxh : N -> N) (dom : N -> Prop), (forall h : N, dom h -> h <= maxh (file_of h)) -> (forall h' h : N, dom h' -> dom h -> maxh (file_of h') = h -> file_of h = file_of h') -> forall (n : nat) (s : N) (o : Drive.openset), (forall i : nat, (i < n)%nat -> dom (s + N.of_nat i)) -> Drive.inv file_of maxh dom o s -> Drive.inv file_of maxh dom (Drive.visits file_of maxh o s n) (s + N.of_nat n).
 Proof. exact Drive.open_invariant. Qed.
 
 Theorem C17_open_span :
-  forall file_of maxh : N -> N, (forall h : N, h <= maxh (file_of h)) -> (forall h : N, file_of (maxh (file_of h)) = file_of h) -> forall (n : nat) (s f : N), In f (Drive.visits file_of maxh [] s n) -> (exists h' : N, f = file_of h') /\ s + N.of_nat n <= maxh f.
+  forall (file_of maxh : N -> N) (dom : N -> Prop), (forall h : N, dom h -> h <= maxh (file_of h)) -> (forall h' h : N, dom h' -> dom h -> maxh (file_of h') = h -> file_of h = file_of h') -> forall (n : nat) (s f : N), (forall i : nat, (i < n)%nat -> dom (s + N.of_nat i)) -> In f (Drive.visits file_of maxh [] s n) -> (exists h' : N, dom h' /\ f = file_of h') /\ s + N.of_nat n <= maxh f.
 Proof. exact Drive.open_span. Qed.
 
 Theorem C17_open_nodup :
@@ -15,7 +15,7 @@ Theorem C17_open_nodup :
 Proof. exact Drive.visits_nodup. Qed.
 
 Theorem C17_disjoint_spans_one_open :
-  forall file_of maxh : N -> N, (forall h : N, h <= maxh (file_of h)) -> (forall h : N, file_of (maxh (file_of h)) = file_of h) -> forall lo : N -> N, (forall h : N, lo (file_of h) <= h) -> (forall h h' : N, file_of h <> file_of h' -> maxh (file_of h) < lo (file_of h') \/ maxh (file_of h') < lo (file_of h)) -> forall (n : nat) (s : N), (length (Drive.visits file_of maxh [] s n) <= 1)%nat.
+  forall (file_of maxh : N -> N) (dom : N -> Prop), (forall h : N, dom h -> h <= maxh (file_of h)) -> (forall h' h : N, dom h' -> dom h -> maxh (file_of h') = h -> file_of h = file_of h') -> forall lo : N -> N, (forall h : N, dom h -> lo (file_of h) <= h) -> (forall h h' : N, dom h -> dom h' -> file_of h <> file_of h' -> maxh (file_of h) < lo (file_of h') \/ maxh (file_of h') < lo (file_of h)) -> forall (n : nat) (s : N), (forall i : nat, (i < n)%nat -> dom (s + N.of_nat i)) -> (length (Drive.visits file_of maxh [] s n) <= 1)%nat.
 Proof. exact Drive.disjoint_spans_one_open. Qed.
 
 Theorem C17_model_trace_is_visits :
@@ -26,9 +26,29 @@ Theorem C17_model_trace_heights :
   forall (ci : chain_index) (hs : list N) (o : Drive.openset), map fst (open_trace ci o hs) = hs.
 Proof. exact open_trace_heights. Qed.
 
+Theorem C17_model_maxh_bounds :
+  forall (kvs : list (bytes * bytes)) (o : range) (ci : chain_index), new_index kvs o = Ok ci -> forall h : N, in_run o ci h -> h <= maxh_of_file ci (file_of_height ci h).
+Proof. exact model_maxh_ok. Qed.
+
+Theorem C17_model_maxh_attained :
+  forall (kvs : list (bytes * bytes)) (o : range) (ci : chain_index), new_index kvs o = Ok ci -> forall h' h : N, in_run o ci h' -> in_run o ci h -> maxh_of_file ci (file_of_height ci h') = h -> file_of_height ci h = file_of_height ci h'.
+Proof. exact model_maxh_attained. Qed.
+
+Theorem C17_model_open_invariant :
+  forall (kvs : list (bytes * bytes)) (o : range) (ci : chain_index), new_index kvs o = Ok ci -> forall (n : nat) (s : N), (forall i : nat, (i < n)%nat -> in_run o ci (s + N.of_nat i)) -> forall f : N, In f (Drive.visits (file_of_height ci) (maxh_of_file ci) [] s n) -> s + N.of_nat n <= maxh_of_file ci f.
+Proof. exact model_open_invariant. Qed.
+
+Theorem C17_index_keys_unique :
+  forall (kvs : list (bytes * bytes)) (o : range) (ci : chain_index), new_index kvs o = Ok ci -> NoDup (map fst (ci_full ci)).
+Proof. exact full_nodup. Qed.
+
 Print Assumptions C17_open_invariant.
 Print Assumptions C17_open_span.
 Print Assumptions C17_open_nodup.
 Print Assumptions C17_disjoint_spans_one_open.
 Print Assumptions C17_model_trace_is_visits.
 Print Assumptions C17_model_trace_heights.
+Print Assumptions C17_model_maxh_bounds.
+Print Assumptions C17_model_maxh_attained.
+Print Assumptions C17_model_open_invariant.
+Print Assumptions C17_index_keys_unique.
